@@ -710,6 +710,15 @@ class _FuncAnalysis:
         targets, how = self.eff.cg.resolve_call(self.f, call)
         if how == "by-name" and _too_generic(name):
             targets = []
+        if how == "by-name" and targets:
+            # a method found by NAME only: an object handled by frontend code is a frontend object (backend code: a backend object, ...);
+            # candidates outside the caller's own sub-package are dropped when there is a candidate inside it
+            def area(rel):
+                parts = rel.split("/")
+                return parts[1] if len(parts) > 2 else ""
+            mine = [g for g in targets if area(g.module.rel) == area(self.f.module.rel)]
+            if mine:
+                targets = mine
         if targets:
             for g in targets:
                 b = self._bind(call, g)
